@@ -41,10 +41,12 @@ def dependent(a, b):
     if pathsa & pathsb:
         return True
     # directory listing vs entry creation / removal in that directory
-    if ka == "list" and mb and kb in CREATE_KINDS:
+    # (a stat of the directory sees its modification time, which changes
+    # with every entry created or removed)
+    if ka in ("list", "stat") and mb and kb in CREATE_KINDS:
         if any(os.path.dirname(p) == pa for p in pathsb):
             return True
-    if kb == "list" and ma and ka in CREATE_KINDS:
+    if kb in ("list", "stat") and ma and ka in CREATE_KINDS:
         if any(os.path.dirname(p) == pb for p in pathsa):
             return True
     # removing / renaming a directory vs anything below it
@@ -100,7 +102,7 @@ class Sharing:
                 if mut and p not in self.mutated:
                     self.mutated.add(p)
                     self.grew = True
-        if kind == "list":
+        if kind in ("list", "stat"):
             self._add(self.listed, rel, aid)
         if kind in ("rmdir", "rename") and rel:
             self._add(self.removed, rel, aid)
@@ -110,7 +112,9 @@ class Sharing:
                     self._add(self.entries, os.path.dirname(p), aid)
 
     def visible(self, aid, kind, rel, dst, mut, entry):
-        if self.frozen is None:
+        if self.frozen is None or getattr(self, "all_visible", False):
+            # (all_visible: the actors share more than the directory - e.g.
+            # one library object - so every traced operation is a point)
             return True
         touch, mutated, listed, entries, removed = self.frozen
         for p in (rel, dst):
@@ -132,7 +136,7 @@ class Sharing:
             for p in (rel, dst):
                 if p and (listed.get(os.path.dirname(p), set()) - {aid}):
                     return True
-        if kind == "list" and (entries.get(rel, set()) - {aid}):
+        if kind in ("list", "stat") and (entries.get(rel, set()) - {aid}):
             return True
         return False
 
